@@ -258,8 +258,46 @@ def oracle_var_order(text):
     return out
 
 
+def script_order(case_dir):
+    """file names in the order of the generated project script (section before '# testbench files:');
+    files the script does not list follow alphabetically"""
+    files = sorted(f.name for f in Path(case_dir).glob("*.vhd"))
+    listed = []
+    sc = Path(case_dir) / "project.txt"
+    if sc.exists():
+        for l in sc.read_text().splitlines():
+            l = l.strip()
+            if l == "# testbench files:":
+                break
+            if l and not l.startswith("#") and l in files and l not in listed:
+                listed.append(l)
+    return listed + [f for f in files if f not in listed], listed
+
+
+def oracle_unit_order(case_dir):
+    """independent analysis-order rule: `entity work.X` needs ENTITY X earlier in the same file or in a file that
+    precedes it in the project-script order; a file missing from a multi-file script is a finding too"""
+    out = []
+    order, listed = script_order(case_dir)
+    if listed and len(order) > 1:
+        for f in order:
+            if f not in listed:
+                out.append(dict(kind="file-not-in-project-script", name=f, region="project.txt", what="", file=f))
+    seen = set()
+    for f in order:
+        src = strip_comments((Path(case_dir) / f).read_text(errors="replace"))
+        for m in re.finditer(r"(?im)^\s*ENTITY\s+(\w+)\s+IS\b|\bentity\s+work\s*\.\s*(\w+)", src):
+            if m.group(1):
+                seen.add(m.group(1).lower())
+            elif m.group(2).lower() not in seen:
+                out.append(dict(kind="unit-used-before-analysed", name=m.group(2), region=f"file {f}",
+                                what="entity work." + m.group(2), file=f))
+    return out
+
+
 def oracle_case(case_dir, reserved):
     findings, regions, units = [], [], []
+    findings += oracle_unit_order(case_dir)
     files = sorted(Path(case_dir).glob("*.vhd"))
     # packages first (same order rule as the checker; irrelevant for the oracle's verdict)
     for f in files:
@@ -303,7 +341,8 @@ def gen_design_cases(rng, reserved, tier):
     for k, w in enumerate(["signal", "process", "x", "top", "Foo", "entity", "impl", "default", "unnamed"]):
         vs = variants(w)
         kv = {r: vs[j % 3] for j, r in enumerate(roles)}
-        cases.append(dict(id=f"same{k}", mode="SE"[k % 2], kv=kv, cls="all-roles-same-word", expect="ok"))
+        for mode in modes:
+            cases.append(dict(id=f"same{k}{mode}", mode=mode, kv=kv, cls="all-roles-same-word", expect="ok"))
     # names that collide with the uniquifier's own results and with generated names
     suffixy = ["x", "x_2", "X_2", "x_3", "x_2_2", "x2", "x_02", "s_x", "S_X_2", "v_x", "in_x", "out_x", "C_X",
                "c_x_2", "x_comb", "x_reg", "default_comb", "default_reg", "DEFAULT_COMB_2", "unnamed", "s_unnamed",
@@ -374,6 +413,21 @@ def gen_design_cases(rng, reserved, tier):
                                     kv[r] = rng.choice(snames + rng.sample(pool, 3))
                         cases.append(dict(id=f"cks{k}", mode="SEP"[k % 3], kv=kv, cls=f"clksig-{ck}-{use}", expect="ok"))
                         k += 1
+    # hierarchy shapes (entity in area in entity, area in area, one leaf name from several blocks, blocks on two
+    # levels) in ALL output modes: they decide the design-unit order of single-file / partition exports and of the
+    # generated project script
+    hnames = ["inner", "Inner", "leaf", "LEAF", "leaf_2", "mid", "blk", "Block", "entity", "ENTITY", "top", "blk0", "inner0"]
+    k = 0
+    for hv in range(5):
+        for rep_ in range(2 if tier == "quick" else 8):
+            kv = {"shape": "hier", "hv": str(hv)}
+            if rep_ > 0:
+                for r in ["ent0", "ent1", "ent2", "blk0", "blk1", "top", "clk", "rst", "pi0", "pi1", "po0", "sg0", "sg1"]:
+                    if rng.random() < 0.7:
+                        kv[r] = rng.choice(hnames + rng.sample(pool, 3))
+            for mode in modes:
+                cases.append(dict(id=f"hier{k}{mode}", mode=mode, kv=kv, cls=f"hier-hv{hv}", expect="ok"))
+            k += 1
     # tiny cases with predicted port names (tie B)
     ntiny = 30 if tier == "quick" else 200
     for k in range(ntiny):
@@ -597,6 +651,8 @@ def main():
         "assignment v(i) := e does not count as a write; loops and wait statements are not handled (the exporter emits none); widths are compared only for `target <= name | conv(name) | literal` and port associations of "
         "those forms (other expressions: width not inferred); formals are checked against the entity's port list only "
         "when the entity is part of the export; CASE/IF dataflow is must-assign over straight-line+IF/CASE code",
+        "design-unit order is checked against the DefaultSynthesisTool project script only (vendor tools' scripts - Vivado/Quartus/"
+        "Modelsim writers - and testbench file lists are not examined)",
         "function bodies of the fixed GateryHelperPackage are skipped by the scanner; testbench files, constraint files "
         "and external-node support files are not examined; Node_External/generic maps only as far as the harness designs use them (not at all)",
         "basic identifiers are restricted to ASCII letters (Latin-1 letters of VHDL-93 are treated as illegal)",
@@ -681,7 +737,7 @@ def main():
                 dl = [d.lower() for d in declared]
                 changed = 0
                 for role, name in c["kv"].items():
-                    if role in ("shape", "ipc", "lv", "nm", "cl", "rl", "dv", "sub", "ck", "use", "gt"):
+                    if role in ("shape", "ipc", "lv", "nm", "cl", "rl", "dv", "sub", "ck", "use", "gt", "hv"):
                         continue
                     nl = name.lower()
                     hit = [d for d in dl if nl in d]
@@ -849,6 +905,15 @@ def main():
             "port-map actuals (string and character literals removed, '.' suffixes and attribute names skipped): must be a "
             "reserved word, in the oracle's own package-name list, or declared in an open region",
         ])
+    rep.cov["design_unit_order"] = dict(
+        rule="a direct instantiation `entity work.X` requires ENTITY X to be declared earlier in the same file or in a file "
+             "that precedes it in the generated project script (project.txt, 'source files in dependency order'); an "
+             "ARCHITECTURE requires its ENTITY earlier; packages are analysed first",
+        checked_by=["verified-checker scanner (files are handed over in project-script order; executable check, no theorem)",
+                    "python oracle (oracle_unit_order), which also reports files missing from a multi-file script"],
+        output_modes="S = single file (destination with extension), E = FILE_PER_ENTITY, P = FILE_PER_PARTITION; AUTO equals S or E; "
+                     "every case writes project.txt through VHDLExport::writeProjectFile",
+        note="in FILE_PER_PARTITION mode the script still lists one file per entity; names of files that were not written are ignored")
     rep.cov["translator"] = tout.strip()
     rep.cov["broken"] = broken
     rep.cov["wall_s_total"] = round(time.time() - t0, 1)
